@@ -156,6 +156,64 @@ func newMetaWorld(storage string, wrap ...bool) *metaWorld {
 
 func (w *metaWorld) close() { w.lw.Close(); w.s.Close() }
 
+// runDials: the same comparison for connections made by the library's own dialer (protocol.Dial builds the
+// request, splits it and picks the chain itself): the state and the extra protocols handed to Dial are what
+// the application on the server side must see
+func (w *metaWorld) runDials(c *engine.Ctx, seed int64) {
+	r := c.R
+	rng := rand.New(rand.NewSource(seed))
+	for _, sk := range []string{"absent", "empty", "flat", "nested", "lists", "8k", "30k"} {
+		for _, ek := range []string{"none", "one", "twenty"} {
+			state := makeState(sk, rng)
+			extras := makeExtras(ek, rng)
+			var opts []nodeenrollment.Option
+			if state != nil {
+				opts = append(opts, nodeenrollment.WithState(state))
+			}
+			if extras != nil {
+				opts = append(opts, nodeenrollment.WithExtraAlpnProtos(extras))
+			}
+			desc := fmt.Sprintf("dial|state %s|extras %s", sk, ek)
+			mc := metaCase{Kind: "honest-dial", State: sk, Extras: ek}
+			conn, derr := protocol.Dial(w.s.Ctx, w.A.Store, w.lw.Addr, w.A.NodeOpts(opts...)...)
+			r.Eval(desc, true)
+			if derr != nil {
+				r.Count("honest_client_not_authenticated", 1)
+				r.Sample(map[string]any{"dial_failed": mc, "error": derr.Error()})
+				continue
+			}
+			rec, werr := w.lw.Wait(conn.LocalAddr().String())
+			if werr != nil {
+				conn.Close()
+				r.Inconclusive("watchdog waiting for server side of a dial")
+				return
+			}
+			pc, ok := rec.Conn.(*protocol.Conn)
+			if !rec.Authenticated() || !ok {
+				conn.Close()
+				r.Count("honest_client_not_authenticated", 1)
+				continue
+			}
+			var listed []string
+			for _, e := range pc.ClientNextProtos() {
+				if !strings.HasPrefix(e, nodeenrollment.AuthenticateNodeNextProtoV1Prefix) {
+					listed = append(listed, e)
+				}
+			}
+			switch {
+			case len(listed) != len(extras) || (len(extras) > 0 && !reflect.DeepEqual(listed, extras)):
+				r.Violation("client-next-protos-differ:dial", fmt.Sprintf("the extra protocols reported for a connection made by Dial (%d) are not the ones handed to Dial (%d)", len(listed), len(extras)), mc)
+			case !stateEqual(pc.ClientState(), state):
+				r.Violation("client-state-differs:dial:"+sk, "ClientState differs from the state handed to Dial (state kind "+sk+")", mc)
+			default:
+				r.Count("dials_with_equal_metadata:"+sk, 1)
+			}
+			rec.Conn.Close()
+			conn.Close()
+		}
+	}
+}
+
 func stripPref(in []string) []string {
 	out := []string{}
 	for _, p := range in {
@@ -441,6 +499,9 @@ func runMeta(c *engine.Ctx) engine.Result {
 				for i := p; i < len(list); i += workers {
 					w.run(c, list[i])
 				}
+				if p < 3 {
+					w.runDials(c, int64(p)+c.Rng("meta-dial").Int63())
+				}
 			}(sto, list, p)
 		}
 	}
@@ -450,6 +511,8 @@ func runMeta(c *engine.Ctx) engine.Result {
 	r.Require("authenticated_connections_inspected", 50)
 	r.Require("protocol_lists_equal", 1)
 	r.Require("states_equal:30k", 1)
+	r.Require("dials_with_equal_metadata:30k", 3)
+	r.Require("dials_with_equal_metadata:absent", 3)
 	r.Require("states_equal:nested", 1)
 	r.Require("unverified_state_withheld", 0)
 	r.Require("rogue_state_rejected", 10)
